@@ -244,12 +244,32 @@ pub fn run_case(case: &Case, keep: Option<&BTreeSet<usize>>, scratch: &Path, cas
         other_hits: Default::default(),
     };
 
-    let group_tags: Vec<&'static str> = match case.mode {
+    let mut group_tags: Vec<&'static str> = match case.mode {
         Mode::Twins => vec!["C08"],
         Mode::Tuning => vec!["C11"],
         Mode::Shared => vec!["C11"],
         _ => vec![],
     };
+    // A history generated by the profile of a property lies inside that property's quantifier as a whole ("all
+    // histories in which ingestions are interleaved with writes, snapshots, flushes, compactions ..."): a wrong read
+    // anywhere in it refutes that property too, also when it only shows after a later compaction (seed C14b: an
+    // ingested tombstone lost by a later merge was attributed to the compaction, i.e. to C01, and ignored by the C14
+    // check).
+    if let Some(t) = match case.profile.name {
+        "point" => Some("C01"),
+        "snapshot" => Some("C02"),
+        "scan" => Some("C03"),
+        "reopen" => Some("C04"),
+        "weak" => Some("C13"),
+        "ingest" => Some("C14"),
+        "drop" => Some("C15"),
+        "filter" => Some("C17"),
+        _ => None,
+    } {
+        if !group_tags.contains(&t) {
+            group_tags.push(t);
+        }
+    }
 
     let mut insts: Vec<Instance> = vec![];
     for (i, cfg) in case.cfgs.iter().enumerate() {
